@@ -93,8 +93,9 @@ PARTIAL = [
     "value (tuplet_label_straight) and are not judged otherwise",
     "fill_rests (Model/Rests.lean, both modes): rests_sound_same(_global) and rest_symdur hold for all inputs of the model; "
     "rests_fill_gaps / rests_fill_staves are per measure, for integer times and quarter durations <= 2^40, and speak about "
-    "objects that START in the measure, grouped by voice (as the code does; not by voice and staff); that a later measure's "
-    "window sees no rest added for an earlier one (disjoint measures) is not stated as a theorem; global mode fills only "
+    "objects that START in the measure, grouped by voice (as the code does; not by voice and staff); for the whole part "
+    "(fill_rests_decomposes, rests_fill_gaps_all) the measures must be pairwise disjoint and non-empty - what add_measures "
+    "produces (measures_tile) - since overlapping measures do see each other's rests; global mode fills only "
     "before the first / after the last object of a (voice, staff) by design, so there is no gap theorem for it; the later "
     "members of a composite rest are evaluated with the divisions at the start of the stretch, which are the divisions in "
     "force at their own start only if no quarter-duration change lies inside the stretch",
@@ -427,7 +428,7 @@ def gen_part(rng):
             a, b = sorted(rng.sample(range(len(plain)), 2))
             slurs.append([plain[a]["key"], plain[b]["key"]])
     return {"k": "part", "divs": divs, "qd": qd, "ts": ts, "meas": meas, "notes": notes, "slurs": slurs, "end": L,
-            "mode": mode, "measurewise": rng.random() < 0.7}
+            "mode": mode, "measurewise": rng.random() < 0.7, "wrap": rng.choice([None, None, "score", "score2"])}
 
 
 def gen_tuplet_part(rng):
@@ -518,6 +519,18 @@ def sounding(part):
     for n in part.notes_tied:
         rows.append((int(n.start.t), int(n.duration_tied), int(n.midi_pitch), n.voice, n.id))
     return sorted(rows, key=lambda r: tuple(str(x) for x in r))
+
+
+def na_rows(part):
+    """the note array proper (Part.note_array): (onset_div, duration_div, pitch, voice, id), sorted; None when it cannot
+    be computed"""
+    na, exc = call(part.note_array)
+    if exc is not None:
+        return None
+    try:
+        return sorted(((int(r["onset_div"]), int(r["duration_div"]), int(r["pitch"]), int(r["voice"]), str(r["id"])) for r in na))
+    except Exception:
+        return None
 
 
 def header(part):
@@ -916,6 +929,7 @@ def eval_part(d, ev):
     nontrivial = False
     first, last = part.first_point.t, part.last_point.t
     snd0 = sounding(part)
+    na0 = na_rows(part)
     inherited = inherited_links(part)
     info = {"tie_variants": [n["tv"] for n in d["notes"] if n.get("tv")],
             "tie_links": sum(1 for n in d["notes"] if n.get("tie") is not None)}
@@ -965,6 +979,10 @@ def eval_part(d, ev):
         snd = sounding(part)
         if snd != snd0:
             ev.oracle.append("%s/note-array: changed from %s to %s" % (stage, snd0, snd))
+        elif na0 is not None:
+            na = na_rows(part)   # "the note array before and after is identical", literally
+            if na is not None and na != na0:
+                ev.oracle.append("%s/note-array: Part.note_array() changed from %s to %s" % (stage, na0, na))
         check_chains(part, stage, ev.oracle, inherited)
         check_symbolic(part, stage, ev.oracle, exempt=exempt)
 
@@ -1030,7 +1048,19 @@ def eval_fill(part, d, ev, info, judge):
             if exc is None:
                 uvs = sorted(set((int(v), int(st)) for v, st in zip(na["voice"], na["staff"])))
                 req = "fillg %s %s %s %s" % (qds, W.lst(lambda x: "%d %d" % x, uvs), spans, notes)
-    _, exc = call(S.fill_rests, part, mw)
+    # argument dispatch: the part itself, a Score holding it, or a Score in which it is the second part
+    wrap = d.get("wrap")
+    target = part
+    if wrap == "score":
+        target = S.Score([part])
+    elif wrap == "score2":
+        decoy = S.Part("P1", quarter_duration=4)
+        decoy.add(S.TimeSignature(4, 4), 0)
+        decoy.add(S.Note("C", 4, id="d0", voice=1, staff=1), 4, 8)
+        decoy.add(S.Measure(number=1), 0, 16)
+        target = S.Score([decoy, part])
+    info["fill_wrap"] = str(wrap)
+    _, exc = call(S.fill_rests, target, mw)
     info["fill_rests_raised"] = None if exc is None else type(exc).__name__
     new = [r for r in part.iter_all(S.Rest) if id(r) not in old]
     info["rests_added"] = len(new)
@@ -1456,6 +1486,7 @@ def distribution(descs, results):
         "tuplets_found_through_subclass": sum((r.get("info") or {}).get("tuplets", 0) for r in results),
         "tuplet_labels_not_lasting_their_note": sum((r.get("info") or {}).get("tuplet_labels_wrong", 0) for r in results),
         "fill_mode": dict(Counter(str((r.get("info") or {}).get("fill_mode")) for _, r in parts)),
+        "fill_rests_argument": dict(Counter(str((r.get("info") or {}).get("fill_wrap")) for _, r in parts)),
         "rests_with_non_integral_time": sum((r.get("info") or {}).get("composite_rests", 0) for _, r in parts),
         "tie_links_entered": sum((r.get("info") or {}).get("tie_links", 0) for _, r in parts),
         "tie_links_by_representation_variant": dict(Counter(t for _, r in parts for t in (r.get("info") or {}).get("tie_variants", []))),
